@@ -12,7 +12,7 @@ use serde_json::Value;
 use std::collections::BTreeMap;
 use std::path::Path;
 
-pub const RULE: &str = "proptest-generated in-memory workspaces as for C01 plus duplicate definitions in one file; a probe test requesting every pool name is appended to each project file. At every recorded usage: find_fixture_definition == get_available_fixtures entry of that name == resolve_fixture_for_file == find_fixture_or_definition_at_position; the available list has exactly one entry per name whose probe resolves and none otherwise. Non-trivial = the name has >=2 definitions and the usage is not in the defining file; distinct = distinct workspace specs.";
+pub const RULE: &str = "proptest-generated in-memory workspaces as for C01 plus duplicate definitions in one file; a probe test requesting every pool name is appended to each project file. At every recorded usage: find_fixture_definition == get_available_fixtures entry of that name == resolve_fixture_for_file == find_fixture_or_definition_at_position; the available list has exactly one entry per name whose probe resolves and none otherwise. Real-world tier: every pytest-style file found offline (site-packages of the tooling virtualenv and of the conda installation) is analysed alone and at each of its recorded usages go-to-definition, position lookup, the per-file view and the outgoing-call resolver must agree. Non-trivial = the name has >=2 definitions and the usage is not in the defining file; distinct = distinct workspace specs.";
 pub const ASSUMPTIONS: &[&str] = &[
     "pure cross-feature comparison (which definition is right is C01's business)",
     "at a self-named parameter the per-file view (completion / inlay) is not judged: it cannot be position specific; the outgoing-call resolver is judged there",
@@ -133,7 +133,72 @@ pub fn check_ws(ws0: &WorkspaceSpec, info: &mut CaseInfo) -> Outcome {
     }
 }
 
+/// Real-world documents, one at a time on an index of their own (no reference model is needed): at
+/// every recorded usage the four library resolvers agree, and the per-file view has one entry per name.
+pub fn check_corpus_document(src: &str, path: &str, info: &mut CaseInfo) -> Outcome {
+    let db = pytest_language_server::FixtureDatabase::new();
+    let p = Path::new(path);
+    db.analyze_file(p.to_path_buf(), src);
+    let key = |d: &pytest_language_server::FixtureDefinition| (d.file_path.clone(), d.line, d.name.clone());
+    let avail = db.get_available_fixtures(p);
+    let mut by_name: BTreeMap<String, Vec<_>> = BTreeMap::new();
+    for d in &avail {
+        by_name.entry(d.name.clone()).or_default().push(key(d));
+    }
+    for (n, v) in &by_name {
+        if v.len() != 1 {
+            return Outcome::Fail(format!("available fixtures list `{}` {} times", n, v.len()));
+        }
+    }
+    let uses = db.usages.get(p).map(|u| u.value().clone()).unwrap_or_default();
+    let defs_in_file = crate::snapshot::all_defs(&db).len();
+    if !uses.is_empty() && defs_in_file > 0 {
+        info.nontrivial = true;
+    }
+    for u in &uses {
+        info.checks += 1;
+        let (l, c) = ((u.line.max(1) - 1) as u32, u.start_char as u32);
+        let g = db.find_fixture_definition(p, l, c).map(|d| key(&d));
+        let pos = db.find_fixture_or_definition_at_position(p, l, c).map(|d| key(&d));
+        let here = format!("usage `{}` at line {} col {}", u.name, u.line, u.start_char);
+        if pos != g {
+            return Outcome::Fail(format!("{}: go-to-definition -> {:?} but find_fixture_or_definition_at_position -> {:?}", here, g, pos));
+        }
+        // a parameter named like the fixture that declares it resolves outward (C02): not a plain usage
+        let self_param = crate::snapshot::all_defs(&db).iter().any(|d| d.name == u.name && d.line == u.line);
+        if self_param {
+            info.unjudged += 1;
+            continue;
+        }
+        let a = by_name.get(&u.name).map(|v| v[0].clone());
+        if a != g {
+            return Outcome::Fail(format!("{}: go-to-definition -> {:?} but the available-fixtures entry (completion / inlay hints) -> {:?}", here, g, a));
+        }
+        let r3 = db.resolve_fixture_for_file(p, &u.name).map(|d| key(&d));
+        if r3 != g {
+            return Outcome::Fail(format!("{}: go-to-definition -> {:?} but resolve_fixture_for_file (outgoing calls) -> {:?}", here, g, r3));
+        }
+    }
+    Outcome::Ok
+}
+
 pub fn run(ctx: &Ctx) {
+    // real-world corpus (the files C03 also reads), single-document indexes
+    let files = crate::props::c03::corpus_files(ctx.tier.pick(150, 100_000) as usize);
+    let mut compared = 0u64;
+    for (i, f) in files.iter().enumerate() {
+        let Ok(src) = std::fs::read_to_string(f) else { continue };
+        let mut info = CaseInfo::default();
+        let path = format!("/vw/corpus/{}/{}", i, f.file_name().and_then(|n| n.to_str()).unwrap_or("test_file.py"));
+        let out = std::panic::catch_unwind(std::panic::AssertUnwindSafe(|| check_corpus_document(&src, &path, &mut info))).unwrap_or_else(|_| Outcome::Fail("PANIC".into()));
+        compared += 1;
+        ctx.record(&serde_json::json!({"corpus_file": f.to_string_lossy()}), &info, &out);
+        if let Outcome::Fail(m) = out {
+            ctx.violation("corpus", &serde_json::json!({"file": f.to_string_lossy()}), &format!("corpus file {}: {}", f.display(), m));
+            break;
+        }
+    }
+    ctx.set_extra("corpus_documents_compared", serde_json::json!(compared));
     ctx.run_prop("lib", ctx.tier.pick(16_000, 800_000), 16, || workspace(cfg()).prop_map(|ws| Case { ws }), |c, info| check_ws(&c.ws, info));
     ctx.run_prop_shrink("lsp", ctx.tier.pick(100, 2500), 8, 150, || workspace(lsp_cfg()).prop_map(|ws| Case { ws }), |c, info| {
         crate::props::lsp_tiers::c05_features(ctx, &c.ws, lsp_cfg().names, info)
@@ -147,6 +212,11 @@ pub fn lsp_cfg() -> GenCfg {
 pub fn judge(ctx: &Ctx, sub: &str, case: &Value) -> Option<Outcome> {
     let mut info = CaseInfo::default();
     match sub {
+        "corpus" => {
+            let f = case.get("file")?.as_str()?;
+            let src = std::fs::read_to_string(f).ok()?;
+            Some(check_corpus_document(&src, "/vw/corpus/0/test_file.py", &mut info))
+        }
         "lsp" => {
             let c: Case = from_case(case)?;
             Some(crate::props::lsp_tiers::c05_features(ctx, &c.ws, lsp_cfg().names, &mut info))
